@@ -136,4 +136,176 @@ ThmZ2IsChiSq ==
       \A i, j \in 1..2 :
         LET z == ZScore(tk, BaseEls(DimR)[i], BaseEls(DimC)[j]) IN
         (IsFinite(z[2]) /\ z[2] # AnyVal) => Eq(z[2], ChiSq(tk))
+
+(***************************************************************************)
+(* C14: scale statistics.  A vector (row or column element v of dimension  *)
+(* dv) is a multiset of respondents, each carrying the numeric value of    *)
+(* the category of the OPPOSING dimension do they fall in; respondents     *)
+(* whose category has no numeric value are ignored.                        *)
+(*   mean, population variance, median of that multiset (weighted counts   *)
+(*   are integers here, so the median is that of the expanded multiset);   *)
+(*   SE^2 = variance / weighted margin of the vector.                      *)
+(***************************************************************************)
+ValOf(d, p) == Dims[d].vals[p]
+Valued(d)   == {p \in ValidPos(d) : ValOf(d, p) # NA}
+HasVals(d)  == Valued(d) # {}
+NoneV == [k |-> "none", nd |-> 0, v |-> 0]
+
+\* weighted count of vector element v (on dimension dv) in opposing category p
+VecCount(tk, dv, v, p) ==
+  IF dv = DimR THEN Count(tk, v, BaseEl(DimC, p), WS)
+  ELSE Count(tk, BaseEl(DimR, p), v, WS)
+OppDim(dv) == IF dv = DimR THEN DimC ELSE DimR
+
+ScaleN(tk, dv, v)  == MapThenSumSet(LAMBDA p : VecCount(tk, dv, v, p), Valued(OppDim(dv)))
+ScaleS1(tk, dv, v) ==
+  MapThenSumSet(LAMBDA p : VecCount(tk, dv, v, p) * ValOf(OppDim(dv), p), Valued(OppDim(dv)))
+ScaleS2(tk, dv, v) ==
+  MapThenSumSet(LAMBDA p : VecCount(tk, dv, v, p) * ValOf(OppDim(dv), p) * ValOf(OppDim(dv), p),
+                Valued(OppDim(dv)))
+
+\* no property says what the scale statistics of a difference are
+ScaleMean(tk, dv, v) ==
+  IF IsDiff(v) THEN AnyVal ELSE Div(R(ScaleS1(tk, dv, v)), R(ScaleN(tk, dv, v)))
+ScaleVar(tk, dv, v) ==
+  IF IsDiff(v) THEN AnyVal
+  ELSE LET n == ScaleN(tk, dv, v) IN
+       IF n = 0 THEN NaN
+       ELSE Sub(Div(R(ScaleS2(tk, dv, v)), R(n)), Sq(Div(R(ScaleS1(tk, dv, v)), R(n))))
+
+\* value at 1-based rank r of the sorted expanded multiset given by cnt[p] on Valued(d)
+RankValue(d, cnt, r) ==
+  LET vals == {ValOf(d, p) : p \in Valued(d)}
+      cumLE(x) == MapThenSumSet(LAMBDA p : IF ValOf(d, p) <= x THEN cnt[p] ELSE 0, Valued(d))
+  IN  Min({x \in vals : cumLE(x) >= r})
+
+MedianOf(d, cnt) ==
+  LET n == MapThenSumSet(LAMBDA p : cnt[p], Valued(d)) IN
+  IF n = 0 THEN NaN
+  ELSE IF n % 2 = 1 THEN R(RankValue(d, cnt, (n + 1) \div 2))
+  ELSE Div(R(RankValue(d, cnt, n \div 2) + RankValue(d, cnt, n \div 2 + 1)), R(2))
+
+ScaleMedian(tk, dv, v) ==
+  IF IsDiff(v) THEN AnyVal
+  ELSE MedianOf(OppDim(dv), [p \in Valued(OppDim(dv)) |-> VecCount(tk, dv, v, p)])
+
+\* weighted margin of the vector (defined when the opposing dimension is categorical)
+VecMargin(tk, dv, v) ==
+  IF dv = DimR THEN RowBase(tk, v, AnyEl(DimC), WS) ELSE ColBase(tk, AnyEl(DimR), v, WS)
+ScaleSE2(tk, dv, v) ==
+  LET var == ScaleVar(tk, dv, v) IN
+  IF var = AnyVal THEN AnyVal ELSE Div(var, R(VecMargin(tk, dv, v)))
+
+ScaleOut(tk, dv, E, f(_, _, _), sqrt) ==
+  IF ~HasVals(OppDim(dv)) THEN NoneV
+  ELSE LET vec == Vec(Len(E), LAMBDA i : f(tk, dv, E[i])) IN
+       IF sqrt THEN Sqrt1(vec) ELSE Num1(vec)
+
+\* the scalar "margins": the same statistics of the opposing margin as one vector
+MarginCnt(tk, dv) ==   \* counts per category of dv's opposing... see ScaleMarginMean
+  [p \in Valued(dv) |->
+     IF dv = DimC THEN ColBase(tk, AnyEl(DimR), BaseEl(DimC, p), WS)
+     ELSE RowBase(tk, BaseEl(DimR, p), AnyEl(DimC), WS)]
+\* rows_scale_*_margin summarises the columns margin with the column values (dv = DimC)
+ScaleMarginMean(tk, dv) ==
+  IF ~HasVals(dv) THEN NoneV
+  ELSE LET c == MarginCnt(tk, dv) IN
+       Num0(Div(R(MapThenSumSet(LAMBDA p : c[p] * ValOf(dv, p), Valued(dv))),
+                R(MapThenSumSet(LAMBDA p : c[p], Valued(dv)))))
+ScaleMarginMedian(tk, dv) ==
+  IF ~HasVals(dv) THEN NoneV
+  ELSE LET c == MarginCnt(tk, dv)  m == MedianOf(dv, c) IN
+       IF IsNaN(m) THEN NoneV ELSE Num0(m)
+
+\* strand: the single variable's own values
+SScaleCnt(tk) == [p \in Valued(DimR) |-> Count(tk, BaseEl(DimR, p), NoEl, WS)]
+SScaleN(tk)  == MapThenSumSet(LAMBDA p : SScaleCnt(tk)[p], Valued(DimR))
+SScaleS1(tk) == MapThenSumSet(LAMBDA p : SScaleCnt(tk)[p] * ValOf(DimR, p), Valued(DimR))
+SScaleS2(tk) ==
+  MapThenSumSet(LAMBDA p : SScaleCnt(tk)[p] * ValOf(DimR, p) * ValOf(DimR, p), Valued(DimR))
+SScaleVarR(tk) == Sub(Div(R(SScaleS2(tk)), R(SScaleN(tk))), Sq(Div(R(SScaleS1(tk)), R(SScaleN(tk)))))
+SNone(tk) == ~HasVals(DimR) \/ SScaleN(tk) = 0
+
+(***************************************************************************)
+(* C15: share of sum.  A cell's sum over the total of its row / column /   *)
+(* table, every total taken over BASE rows and columns only (an            *)
+(* unavailable sum counts as nothing in a total).  Differences: left open. *)
+(***************************************************************************)
+NanZero(x) == IF IsNaN(x) THEN Zero ELSE x
+BaseRowEls == BaseEls(DimR)
+BaseColEls == IF ND >= 2 /\ DimC # 0 THEN BaseEls(DimC) ELSE << NoEl >>
+
+RECURSIVE SumSeqNZ(_)
+SumSeqNZ(s) == IF s = << >> THEN Zero ELSE Add(NanZero(Head(s)), SumSeqNZ(Tail(s)))
+
+RowSumTotal(tk, re) ==
+  SumSeqNZ([j \in 1..Len(BaseColEls) |-> SumOver(tk, re, BaseColEls[j])])
+ColSumTotal(tk, ce) ==
+  SumSeqNZ([i \in 1..Len(BaseRowEls) |-> SumOver(tk, BaseRowEls[i], ce)])
+TableSumTotal(tk) ==
+  SumSeqNZ([i \in 1..Len(BaseRowEls) |-> RowSumTotal(tk, BaseRowEls[i])])
+
+\* the total a subtotal's share refers to is that of its row/column over base cells
+RowTotalOf(tk, re) == IF IsIns(re) /\ ~IsDiff(re)
+                      THEN SumSeqNZ([j \in 1..Len(BaseColEls) |-> SumOver(tk, re, BaseColEls[j])])
+                      ELSE RowSumTotal(tk, re)
+
+ShareDir(dir, tk, re, ce) ==
+  IF IsDiff(re) \/ IsDiff(ce) THEN AnyVal
+  ELSE LET s == SumOver(tk, re, ce) IN
+       CASE dir = "row"   -> Div(s, RowSumTotal(tk, re))
+         [] dir = "col"   -> Div(s, ColSumTotal(tk, ce))
+         [] dir = "table" -> Div(s, TableSumTotal(tk))
+ShareM(dir, tk, RE, CE) ==
+  Mat(Len(RE), Len(CE), LAMBDA i, j : ShareDir(dir, tk, RE[i], CE[j]))
+SShareV(tk, RE) ==
+  Vec(Len(RE), LAMBDA i : IF IsDiff(RE[i]) THEN AnyVal
+                          ELSE Div(SumOver(tk, RE[i], NoEl), TableSumTotal(tk)))
+
+(***************************************************************************)
+(* C16: column index = 100 * column proportion / unconditional row share,  *)
+(* the share of the row element among all respondents eligible for it,     *)
+(* whatever their column answer (valid or missing).  NaN for subtotals.    *)
+(***************************************************************************)
+Uncond(tk, re, ce) ==
+  Div(R(Wt(Co(tk, re, ce), Md("sel", "any"), WS)), R(Wt(Co(tk, re, ce), Md("own", "any"), WS)))
+ColIndex(tk, re, ce) ==
+  IF IsIns(re) \/ IsIns(ce) THEN NaN
+  ELSE Mul(R(100), Div(PlainColProp(tk, re, ce), Uncond(tk, re, ce)))
+ColIndexM(tk, RE, CE) == Mat(Len(RE), Len(CE), LAMBDA i, j : ColIndex(tk, RE[i], CE[j]))
+
+(***************************************************************************)
+(* C17: population estimates.                                              *)
+(* Filter = [style, sel, oth, catdate, fn, un]:                            *)
+(*   style "new": weighted complete-case statistics present: fraction =    *)
+(*         sel/(sel+oth), 1 when the filter is a categorical date;         *)
+(*   style "old": filtered / unfiltered weighted N (fn / un; NA = absent); *)
+(*   style "none": nothing specified.                                      *)
+(***************************************************************************)
+Fraction ==
+  CASE Filter.style = "new" ->
+         IF Filter.catdate THEN One ELSE
+         IF Filter.sel + Filter.oth = 0 THEN NaN ELSE Norm(<<Filter.sel, Filter.sel + Filter.oth>>)
+    [] Filter.style = "old" ->
+         IF Filter.fn = NA \/ Filter.un = NA THEN One
+         ELSE IF Filter.un = 0 THEN NaN ELSE Norm(<<Filter.fn, Filter.un>>)
+    [] OTHER -> One
+
+Pop == IF Population = NA THEN 0 ELSE Population
+PopDirection == IF IsDate(DimR) THEN "row" ELSE IF ND >= 2 /\ DimC # 0 /\ IsDate(DimC) THEN "col" ELSE "table"
+
+PopProp(tk, re, ce) ==
+  IF IsDiff(re) \/ IsDiff(ce) THEN NaN ELSE PropDir(PopDirection, tk, re, ce)
+PopCount(tk, re, ce) == Mul(Mul(PopProp(tk, re, ce), R(Pop)), Fraction)
+PopCountM(tk, RE, CE) == Mat(Len(RE), Len(CE), LAMBDA i, j : PopCount(tk, RE[i], CE[j]))
+PopSE2M(tk, RE, CE) ==
+  Mat(Len(RE), Len(CE), LAMBDA i, j :
+      IF IsDiff(RE[i]) \/ IsDiff(CE[j]) THEN AnyVal ELSE SE2Dir(PopDirection, tk, RE[i], CE[j]))
+PopScale == Mul(Mul(Z975, R(Pop)), Fraction)
+
+SPopProp(tk, re) == IF IsDiff(re) THEN NaN ELSE IF IsDate(DimR) THEN One ELSE SProp(tk, re)
+SPopCountV(tk, RE) == Vec(Len(RE), LAMBDA i : Mul(Mul(SPopProp(tk, RE[i]), R(Pop)), Fraction))
+SPopSE2V(tk, RE) ==
+  Vec(Len(RE), LAMBDA i : IF IsDiff(RE[i]) THEN AnyVal
+                          ELSE IF IsDate(DimR) THEN Zero ELSE SSE2(tk, RE[i]))
 =============================================================================
